@@ -74,6 +74,25 @@ def generate(tier, rng):
                         c["queries"].append({"fn": "get", "start": m, "path": rc.rel_path(t, c["names"], sep, m, x),
                                              "ignorecase": ic, "relax": relax, "expect": x})
             yield c
+    # scale: wide and deep trees (an index or a shortcut that only engages above a cut-off)
+    for sh in gen.big_shapes(rng, tier):
+        t = gen.labelled(sh, rng, True)
+        sep = rng.choice(["/", "/", ";"])
+        ic = rng.random() < 0.3
+        names = rc.big_names(rng, t)
+        c = {"fam": "resolve", "tree": t, "names": names, "sep": sep, "pathattr": "name", "queries": [], "typed": [], "cls": rng.choice([None, None, "eq", "falsy"])}
+        labs = gen.tree_labels(t)
+        dl = gen.deep_labels(t)
+        targets = [dl[-1], dl[len(dl) // 2], labs[-1], labs[len(labs) // 2]] + [rng.choice(labs) for _ in range(6)]
+        for x in targets:
+            for m in (t[0], rng.choice(labs), dl[-1]):
+                relax = rng.random() < 0.5
+                c["queries"].append({"fn": "get", "start": m, "path": rc.abs_path(t, names, sep, x), "ignorecase": ic, "relax": relax, "expect": x})
+                c["queries"].append({"fn": "get", "start": m, "path": rc.rel_path(t, names, sep, m, x), "ignorecase": ic, "relax": relax, "expect": x})
+        for _ in range(8):
+            c["queries"].append({"fn": "get", "start": rng.choice(labs), "path": rc.random_path(rng, names, sep, False, 4),
+                                 "ignorecase": ic, "relax": rng.random() < 0.5})
+        yield c
     for _ in range(300 if tier == "quick" else 5000):
         t = gen.labelled(gen.random_shape(rng, rng.randrange(2, 9 if tier == "quick" else 16)), rng, True)
         sep = rng.choice(["/", "/", ";", "::"])
